@@ -35,6 +35,23 @@ impl TypeVftable {
     }
 }
 
+/// The largest vftable that will be materialised; every slot up to an index or size becomes
+/// a function of its own, so an absurd value must not be taken at face value.
+pub const MAX_VFTABLE_SLOTS: usize = 0x1_0000;
+
+/// Convert an `index`/`size` attribute value into a number of vftable slots.
+pub fn slot_count(attribute: &str, value: isize) -> anyhow::Result<usize> {
+    let value: usize = value
+        .try_into()
+        .with_context(|| format!("failed to convert vftable `{attribute}` {value} into usize"))?;
+    if value > MAX_VFTABLE_SLOTS {
+        anyhow::bail!(
+            "vftable `{attribute}` {value} is larger than the supported maximum of {MAX_VFTABLE_SLOTS} slots"
+        );
+    }
+    Ok(value)
+}
+
 /// Given a parsed size/list of functions, construct the list of semantic functions.
 /// Returns `Ok(None)` if one of the functions mentions a type that is not available yet.
 pub fn convert_grammar_functions_to_semantic_functions(
@@ -53,7 +70,9 @@ pub fn convert_grammar_functions_to_semantic_functions(
             };
             match (ident.as_str(), exprs.as_slice()) {
                 ("index", [grammar::Expr::IntLiteral(index_)]) => {
-                    index = Some(*index_ as usize);
+                    index = Some(slot_count("index", *index_).with_context(|| {
+                        format!("while building vftable function `{}`", function.name)
+                    })?);
                 }
                 _ => continue,
             }
